@@ -21,7 +21,7 @@ claim("C02",
 claim("C04",
   "metamorphic property testing (two generated presentations of one set must give bit-identical sketches) + targeted collision generator",
   "Exploration: 1.6e5 (quick) / 3e6 (thorough) generated (sketcher kind among 12, size, SetSketch parameters, set, two presentations with repetitions / permutation / chunking / slice vs item-wise) cases compared bit for bit over all views; stored hashes are checked against the independently recomputed hasher values; a second generator observes per-item values through the public API, finds items with equal value in one bin and presents them in both orders (this is what exposed the f32 tie defect, now fixed).",
-  "SuperMinHash<f32> cases whose final sketch contains an integer-valued register are not asserted (counted); SetSketch event counters are not part of the sketch.",
+  "SetSketch event counters (get_low_sketch, get_nb_overflow) are not part of the sketch. Targeted sub-checks: dens-equal-r, tie-hunt (2^18 / 2^20 items sorted by the sketcher's own comparison), distinct-items (structured labels incl. the no-op hasher), long-streams (up to 140 000 calls, sizes up to 110 000).",
   "DESIGN.md 5/C04")
 
 claim("C01",
@@ -39,7 +39,7 @@ claim("C03",
 claim("C05",
   "model-based stateful property testing (histories of sketch / merge / mismatching merge against a set model, two independent composition oracles) + metamorphic min-composition for SuperMinHash",
   "Exploration: 1e5/1.5e6 generated SetSketch histories (u16 and u32 registers, parameters incl. forced clipping and overflow, pools sized so that the lower bound becomes active) compared after every step with a fresh sketch of the model set and with the position-wise maximum of single-item sketches; parameter-mismatch merges must be refused without any change; commutativity, associativity, idempotence; get_low_sketch <= min register. SuperMinHash: sketch(S) == position-wise min over single-item sketches, 1e5/1.5e6 cases.",
-  "Parameter differences below 2^-40 relative are not generated (merge tolerates rounding-level differences by design). f32 SuperMinHash cases with an integer-valued register are not asserted.",
+  "Parameter differences below 2^-40 relative are not generated (merge tolerates rounding-level differences by design). A targeted generator (f32-roundup) searches items whose f32 draw r + j rounds up to an integer and checks min-composition around them (this region held defect D11, now fixed).",
   "DESIGN.md 5/C05")
 
 claim("C06",
